@@ -25,7 +25,6 @@ static linepart::array *arr;   /* parts of the last apply/poly (for join) */
 
 static void drv_reset(void)
 {
-	alarm(4);   /* a behaviour is a few calls on small data: a longer run is a hang */
 	free(data); data = 0; dlen = 0;
 	free(data2); data2 = 0; dlen2 = 0;
 	ranged = 1; shift = 0;
